@@ -19,7 +19,7 @@ from sim.fingerprint import obs_equal, observe
 from sim.world import Session, classify, exc_detail, exc_signature, reference_world
 
 PROPERTY = "C09"
-SESSIONS = {"quick": 160, "thorough": 4000}
+SESSIONS = {"quick": 160, "thorough": 500}
 BUDGET_S = {"quick": 80, "thorough": 1500}
 CAP_S = {"quick": 240, "thorough": 480}
 STAGES = ("logical", "simplified-logical", "tuned-logical", "physical", "simplified-physical", "fused")
